@@ -78,7 +78,6 @@ fn provenance<V: Full>(op: Op, fx: &Fix, out: &str, draws: &[Draw]) -> Result<bo
     let msg = b"the same message every time";
     let stream: Vec<u8> = draws.iter().filter(|d| !d.failed).flat_map(|d| d.bytes.iter().copied()).collect();
     let has = |field: &[u8]| !field.is_empty() && stream.windows(field.len()).any(|w| w == field);
-    let find = |field: &[u8]| stream.windows(field.len().max(1)).position(|w| w == field);
     match op {
         Op::Encrypt => {
             let Some((_, body, _)) = split_token(out) else { return Ok(false) };
@@ -114,11 +113,11 @@ fn provenance<V: Full>(op: Op, fx: &Fix, out: &str, draws: &[Draw]) -> Result<bo
             if b.len() < sl + pl + nl {
                 return Ok(false);
             }
-            // salt and nonce must come from disjoint parts of what was drawn
-            match (find(&b[..sl]), find(&b[sl + pl..sl + pl + nl])) {
-                (Some(i), Some(j)) => Ok(i + sl <= j || j + nl <= i),
-                _ => Ok(false),
-            }
+            // salt and nonce must come from disjoint parts of what was drawn (any pair of occurrences: a source
+            // that answers two draws with the same bytes makes the first occurrences coincide)
+            let all = |field: &[u8]| -> Vec<usize> { stream.windows(field.len().max(1)).enumerate().filter(|(_, w)| *w == field).map(|(i, _)| i).collect() };
+            let (si, ni) = (all(&b[..sl]), all(&b[sl + pl..sl + pl + nl]));
+            Ok(si.iter().any(|i| ni.iter().any(|j| i + sl <= *j || j + nl <= *i)))
         }
         Op::Seal => {
             let Some((_, b)) = pk::split(out) else { return Ok(false) };
